@@ -25,10 +25,11 @@ const (
 	sUndoWait   // do ok; first undo returns Wait{WaitedStatus: Undone} (undo needs a reboot)
 	sLogErrFailUndo // do logs an error it ignores (t.Errorf) and succeeds; undo fails with a different error
 	sWaitDo         // first do returns Wait{WaitedStatus: Do}: "run me again from the start once the wait is resolved"
+	sUndoRetryAfter // do ok; first undo returns Retry{After: 1h}
 )
 
 var scriptNames = map[script]string{sOK: "ok", sFailDo: "fail-do", sFailUndo: "fail-undo", sNoUndo: "no-undo", sRetryOnce: "retry-once",
-	sRetryAfter: "retry-after-1h", sWaitDone: "wait-then-done", sAt: "at-1h", sUndoWait: "undo-waits", sLogErrFailUndo: "log-error-then-fail-undo", sWaitDo: "wait-then-do-again"}
+	sRetryAfter: "retry-after-1h", sWaitDone: "wait-then-done", sAt: "at-1h", sUndoWait: "undo-waits", sLogErrFailUndo: "log-error-then-fail-undo", sWaitDo: "wait-then-do-again", sUndoRetryAfter: "undo-retry-after-1h"}
 
 func (s script) String() string { return scriptNames[s] }
 
@@ -133,7 +134,8 @@ type world struct {
 	startCh   chan startEv
 	parked    map[int]*parkedH
 	retries   []int       // script counters (world-side, survive restarts)
-	notBefore []time.Time // harness-side schedule knowledge (C02)
+	notBefore []time.Time // harness-side schedule knowledge (C02): earliest (re)start of the do handler
+	notBeforeUndo []time.Time // earliest restart of the undo handler (after an undo returned Retry{After})
 	dead      bool
 	obs       observer
 	inEnsure  bool
@@ -158,7 +160,7 @@ func (w *world) activate() {
 
 func newWorld(cfg *erConfig, obs observer, keepCheckpoints bool) *world {
 	w := &world{cfg: cfg, be: &recBackend{keep: keepCheckpoints}, now: erT0, t0: erT0, startCh: make(chan startEv, 16), parked: map[int]*parkedH{},
-		retries: make([]int, cfg.N), notBefore: make([]time.Time, cfg.N), obs: obs, idx: map[string]int{}}
+		retries: make([]int, cfg.N), notBefore: make([]time.Time, cfg.N), notBeforeUndo: make([]time.Time, cfg.N), obs: obs, idx: map[string]int{}}
 	w.activate()
 	w.st = New(w.be)
 	w.st.Lock()
@@ -266,6 +268,11 @@ func (w *world) result(i int, phase string, tb *tomb.Tomb) error {
 	if phase == "undo" {
 		if sc == sFailUndo || sc == sLogErrFailUndo {
 			return fmt.Errorf("undo-boom-%d", i)
+		}
+		if sc == sUndoRetryAfter && w.retries[i] == 0 {
+			w.retries[i]++
+			w.notBeforeUndo[i] = w.now.Add(time.Hour)
+			return &Retry{After: time.Hour}
 		}
 		if sc == sUndoWait && w.retries[i] == 0 {
 			w.retries[i]++
